@@ -1,6 +1,8 @@
 SPECIFICATION Spec
 CONSTANTS
-  MaxRefs = 2
+  MaxWrites = 4
+  Wide = FALSE
 INVARIANTS
+  SelfConsistent
   Emit
 CHECK_DEADLOCK FALSE
